@@ -126,6 +126,9 @@ int take_choice(int n)
 Thr *pick(bool me_enabled)
 {
   Thr *me = self;
+  wake_timers_upto_now();   // the clock may have advanced (clock reads, yields)
+  if (!me_enabled && me != nullptr && me->st == RUNNABLE)
+    me_enabled = true;      // the caller was blocking on a timer that is already due: it times out at once
   std::vector<Thr *> R;   // runnable, ascending id
   std::vector<Thr *> T;   // timed-blocked, ascending (deadline, id)
   for (auto &t : S.thrs)
@@ -141,7 +144,8 @@ Thr *pick(bool me_enabled)
   if (R.empty() && T.empty())
     stuck(1, "deadlock: no runnable thread and no pending timer");
 
-  bool must_leave = me_enabled && (me->yield_req || me->idle > S.cfg.spin_limit);
+  bool spinning   = me_enabled && me->idle > S.cfg.spin_limit;
+  bool must_leave = me_enabled && (me->yield_req || spinning);
   if (me_enabled)
     me->yield_req = false;
   std::vector<Thr *> others;
@@ -206,7 +210,7 @@ Thr *pick(bool me_enabled)
     if (me_enabled && !must_leave && rnd01() >= S.cfg.p_switch)
       return me;
     std::vector<Thr *> cand = (must_leave && !others.empty()) ? others : R;
-    if (must_leave && others.empty() && !T.empty())
+    if (spinning && others.empty() && !T.empty())
       return fire(T[rndi((int)T.size())]);
     if (!T.empty() && (cand.empty() || rnd01() < S.cfg.p_timer))
       return fire(T[rndi((int)T.size())]);
@@ -227,7 +231,7 @@ Thr *pick(bool me_enabled)
     }
     if (!T.empty() && (R.empty() || rnd01() < S.cfg.p_timer))
       return fire(R.empty() ? T.front() : T[rndi((int)T.size())]);
-    if (must_leave && others.empty() && !T.empty())
+    if (spinning && others.empty() && !T.empty())
       return fire(T.front());
     Thr *best = nullptr;
     for (Thr *t : R)
@@ -244,7 +248,7 @@ Thr *pick(bool me_enabled)
   {
     struct Opt { Thr *t; bool timer; int cost; };
     std::vector<Opt> opts;
-    bool stay = me_enabled && !(must_leave && (!others.empty() || !T.empty()));
+    bool stay = me_enabled && !(must_leave && (!others.empty() || (spinning && !T.empty())));
     Thr *dflt = nullptr;
     if (stay)
       dflt = me;
@@ -663,6 +667,9 @@ void do_yield()
 {
   if (!active() || self->noyield > 0)
     return;
+  // a yield takes (virtual) time: a loop that polls a clock between yields makes progress even when
+  // every other thread is blocked on a timer
+  S.now += S.cfg.yield_ns;
   self->yield_req = true;
   point(K_YIELD, nullptr);
 }
